@@ -44,7 +44,14 @@ static long run_series(char const* name, quill::ManualBackendWorker* backend, st
       static constexpr quill::MacroMetadata md{"f.cpp:1", "fn", "{}", nullptr, quill::LogLevel::Info, quill::MacroMetadata::Event::Log};
       bool ok = false;
       // an unbounded queue rejects a record larger than its maximum capacity with an error (property C02): discarded, like `false`
+#ifdef SERIES_CSTR
+      // the same history with C-string arguments: their lengths travel from the size pass to the encode pass through the per-thread
+      // size cache, also across a refused statement (seed C08-B2: a cache reset moved behind the encode pass, which a refused statement never reaches)
+      char const* const text_c = text.c_str();
+      try { ok = lg->template log_statement<false, false>(quill::LogLevel::None, &md, text_c); } catch (quill::QuillError const&) { ok = false; }
+#else
       try { ok = lg->template log_statement<false, false>(quill::LogLevel::None, &md, text); } catch (quill::QuillError const&) { ok = false; }
+#endif
       if (ok) want.push_back(text); else ++refused;
       if (drained && c != 'h') check(o3, ok, std::string(name) + ":" + h + " action #" + std::to_string(k - 1));
       drained = false;
